@@ -3,8 +3,8 @@
 # (-> /tmp/iso_repo) instead of /repo itself, so seeded changes can be tried without touching
 # the tree other people are building from.  Usage: iso_setup.sh   (re-run to refresh)
 set -e
-ISO=/tmp/verif_iso
-WT=/tmp/iso_repo
+ISO=/tmp/verif_iso${ISO_TAG}
+WT=/tmp/iso_repo${ISO_TAG}
 mkdir -p $ISO
 rsync -a --delete --exclude .git --exclude replays --exclude build/priv --exclude build/sweeps --exclude build/scratch --exclude build/cargo /verif/ $ISO/ || [ $? -eq 24 ]
 if [ -d $WT ]; then git -C /repo worktree remove --force $WT; fi
